@@ -1,7 +1,7 @@
 (* C02/Properties.v — property theorems only.  Each is closed by [exact lemma] and followed by
    [Print Assumptions]. *)
 From RM Require Import C08.Model.
-From RM Require Import C02.Model C02.Documented C02.Proofs1 C02.Proofs2 C02.Proofs3 C02.Proofs4 C02.Proofs5 C02.Proofs6 C02.Proofs7 C02.Proofs8.
+From RM Require Import C02.Model C02.Documented C02.Proofs1 C02.Proofs2 C02.Proofs3 C02.Proofs4 C02.Proofs5 C02.Proofs6 C02.Proofs7 C02.Proofs8 C02.Proofs9.
 Open Scope Z_scope.
 
 (* The layouts regenerated from minidump-common/src/format.rs on this run are the documented ones:
@@ -475,3 +475,32 @@ Example c02_nonvacuous_crashpad :
   dec_softerr LE [] [226; 152] = None /\ valid_utf8 [237; 160; 128] = false /\ valid_utf8 [244; 143; 191; 191] = true /\
   wf_bootargs {| ba_type := 1299841026; ba_args := Some [45; 118; 55357; 56832] |} = true.
 Proof. vm_compute. repeat split. Qed.
+
+
+(* ------------------------------------------------------------------ round 4: handle object-information chains *)
+(* If the MINIDUMP_HANDLE_OBJECT_INFORMATION records of a chain are in the file and linked in chain order from the
+   descriptor's object_info_rva (chain_at) — WHEREVER each record is stored: in chain order, last record first (every link
+   pointing to a lower offset), scattered — the reader returns exactly the chain's (info_type, size_of_info) list.
+   (The bound is the reader's own cap of len(file)/12 records.) *)
+Theorem c02_handle_chain_any_placement : forall e all r infos, chain_at e all r infos ->
+  Z.of_nat (length infos) <= zlen all / 12 -> read_chain e all r = infos.
+Proof. exact handle_chain_any_placement. Qed.
+Print Assumptions c02_handle_chain_any_placement.
+
+Example c02_nonvacuous_chain :
+  let infos := [(1, 8); (3, 0); (9, 4294967295)] in
+  let pre := repeat 7 24 in
+  chain_at BE (pre ++ enc_chain_bwd BE 24 infos) 48 infos /\            (* stored last record first: links 48 -> 36 -> 24 -> 0 *)
+  read_chain BE (pre ++ enc_chain_bwd BE 24 infos) 48 = infos /\
+  chain_at LE (pre ++ enc_chain_fwd LE 24 infos) 24 infos /\
+  read_chain LE (pre ++ enc_chain_fwd LE 24 infos) 24 = infos /\
+  read_chain LE (pre ++ enc_chain_fwd LE 24 [(1, 8); (10, 0)]) 24 = [(1, 8)].
+Proof.
+  cbv zeta. split; [|split; [|split; [|split]]]; try (vm_compute; reflexivity).
+  - eapply chain_cons; [discriminate|reflexivity|reflexivity|].
+    eapply chain_cons; [discriminate|reflexivity|reflexivity|].
+    eapply chain_cons; [discriminate|reflexivity|reflexivity|]. apply chain_nil.
+  - eapply chain_cons; [discriminate|reflexivity|reflexivity|].
+    eapply chain_cons; [discriminate|reflexivity|reflexivity|].
+    eapply chain_cons; [discriminate|reflexivity|reflexivity|]. apply chain_nil.
+Qed.
